@@ -29,6 +29,10 @@ pub fn table() -> Vec<(&'static str, String, Want)> {
         ("unused-import", "package main\n\nimport (\n    \"fmt\"\n)\n\nfunc main() {\n}\n".to_string(), Want::Reject("unused-import")),
         ("redeclared-function", with("func f() int32 {\n    return 1\n}\n\nfunc f() int32 {\n    return 2\n}\n", "    p(i2s(f()))\n"), Want::Reject("redeclared")),
         ("redeclared-type", with("type T struct {\n    a int32\n}\n\ntype T struct {\n    b int32\n}\n", "    p(\"a\")\n"), Want::Reject("redeclared")),
+        // spec, Package initialization: "the identifier init can only be declared as a function ... with no arguments and no result parameters"; Program execution: main likewise
+        ("init-with-parameters", with("func init(a int32) int32 {\n    return a\n}\n", "    p(\"a\")\n"), Want::Reject("types")),
+        ("type-named-init", with("type init struct {\n    a int32\n}\n", "    p(\"a\")\n"), Want::Reject("redeclared")),
+        ("type-named-main", "package main\n\nimport (\n    \"fmt\"\n)\n\ntype main struct {\n    a int32\n}\n\nfunc f() {\n    fmt.Println(\"a\")\n}\n".to_string(), Want::Reject("redeclared")),
         ("function-used-before-its-declaration-is-legal", with("func g() int32 {\n    return h()\n}\n\nfunc h() int32 {\n    return 3\n}\n", "    p(i2s(g()))\n"), Want::Ok("3\n")),
         // --- assignability (spec: Assignability)
         ("assign-string-to-int", m("    var x int32 = \"s\"\n    p(i2s(x))\n"), Want::Reject("assign")),
